@@ -40,7 +40,7 @@ class Snapshot:
         rows = set()
         for coefs, lb, ub, _ in self.rows:
             rows |= canon_rows({rename(n): c for n, c in coefs.items() if c != 0}, lb, ub)
-        obj = tuple(sorted((rename(n), c) for n, c in self.obj.items() if c != 0))
+        obj = tuple(sorted(((rename(n), c) for n, c in self.obj.items() if c != 0), key=repr))   # total order: keys may mix shapes
         return vs, sorted(rows, key=repr), obj, self.obj_const
 
 
